@@ -460,6 +460,16 @@ class Bits:
     def fselect(s, st, c, a, b, kind):
         return s.ite(st, c, a, b, FBITS[kind])
 
+    def fminmax(s, st, which, a, b, kind):
+        """C fmin/fmax (llvm.minnum/maxnum): if one operand is NaN the other is returned"""
+        an = s.fcmp(st, 'uno', a, a, kind); bn = s.fcmp(st, 'uno', b, b, kind)
+        lt = s.fcmp(st, 'olt', a, b, kind)
+        pick_a = lt if which == 'min' else s.fcmp(st, 'ogt', a, b, kind)
+        r = s.fselect(st, pick_a, a, b, kind)
+        r = s.fselect(st, bn, a, r, kind)
+        r = s.fselect(st, an, b, r, kind)
+        return r
+
     def fundef(s, st, name, kind):
         return z3.BitVec(name, FBITS[kind])
 
@@ -784,6 +794,10 @@ class Ints:
     def fselect(s, st, c, a, b, kind):
         if isinstance(c, int): return a if c else b
         return z3.If(c, s.rterm(a), s.rterm(b))
+
+    def fminmax(s, st, which, a, b, kind):
+        c = s.fcmp(st, 'olt' if which == 'min' else 'ogt', a, b, kind)
+        return s.fselect(st, c, a, b, kind)
 
     def fundef(s, st, name, kind):
         return z3.Real(name)
